@@ -260,7 +260,12 @@ func IntegrityStorm(p *sut.Proc, sessions, members, perConn int, seed int64) (st
 			}
 			accepted[r.tag] = ok[r.id]
 			if !ok[r.id] && count[r.id] == 1 {
-				st.Findings = append(st.Findings, isf([]string{"C04"}, "answer/unexpected-refusal", "the valid pipelined %s request (id %d) of connection %d was refused", r.kind, r.id, i))
+				props := []string{"C04"}
+				if r.kind == "action" || r.kind == "asset" {
+					// an owner's action / asset on its own entity (C16; the asset owner check is C05's)
+					props = []string{"C04", "C16", "C05"}
+				}
+				st.Findings = append(st.Findings, isf(props, "answer/unexpected-refusal", "the valid pipelined %s request (id %d) of connection %d on its own entity was refused", r.kind, r.id, i))
 			}
 		}
 	}
